@@ -102,7 +102,7 @@ func newSpecFile() *SpecFile {
 	}
 }
 
-var clauseHead = regexp.MustCompile(`^(requires|ensures_on_panic|ensures|maintains|modifies|invariant|iteration|decreases|panics_iff|assert|writes_own_objects)(\[[^\]]*\])?\s*(.*)$`)
+var clauseHead = regexp.MustCompile(`^(requires|ensures_on_panic|ensures|maintains|modifies|invariant|iteration|decreases|panics_iff|assert|writes_own_objects|writes_loop_objects)(\[[^\]]*\])?\s*(.*)$`)
 
 var knownKeywords = map[string]bool{
 	"func": true, "iface": true, "ghost": true, "chaninv": true, "smtfun": true, "spec": true, "axiom": true, "lemma": true,
@@ -425,7 +425,7 @@ func (sf *SpecFile) load(path string, extern bool) error {
 					return fail(l, "bad loop clause %q", fs[1])
 				}
 				var e Expr
-				if m[1] != "writes_own_objects" {
+				if m[1] != "writes_own_objects" && m[1] != "writes_loop_objects" {
 					e, err = parseExpr(m[3])
 					if err != nil {
 						return fail(l, "%v", err)
